@@ -134,7 +134,7 @@ func (c *connection) write() {
 	for {
 		select {
 		case <-c.stopChan:
-			clear(record)
+			c.onStopEvent(record)
 			return
 		case activeMsg, ok := <-c.activeMsgChan: // 平台主动下发的
 			if ok {
@@ -257,6 +257,30 @@ func (c *connection) onActiveEvent(activeMsg *ActiveMessage, record map[uint16]*
 			case c.activeMsgCompleteChan <- overtimeMsg:
 			}
 		}(replyMsg)
+	}
+}
+
+// onStopEvent 连接结束时 已下发还在等终端应答的 和 还在activeMsgChan里没下发的 都回复异常
+// 不然调用方会一直阻塞在replyChan上 (stop里先leave再close(stopChan) 所以到这里不会再有新的指令进来)
+func (c *connection) onStopEvent(record map[uint16]*ActiveMessage) {
+	err := errors.Join(ErrNotExistKey, net.ErrClosed)
+	for seq, v := range record {
+		msg := newActiveMessage(seq, v.Command, v.ExtensionFields.Data, err)
+		if handler, ok := c.handles[v.Command]; ok {
+			msg.Handler = handler
+		}
+		c.onActiveCompleteEvent(record, msg)
+	}
+	for {
+		select {
+		case activeMsg, ok := <-c.activeMsgChan:
+			if !ok {
+				return
+			}
+			activeMsg.replyChan <- newErrMessage(err)
+		default:
+			return
+		}
 	}
 }
 
